@@ -71,6 +71,9 @@ def _case(draw):
             "seed": draw(st.integers(0, 2**31 - 1)), "extra_cols": extra}
     if name == "PCGrad":
         case["schedule"] = [rng.permutation(m).tolist() for _ in range(m)]
+        # half of the PCGrad cases use no scripted schedule at all: only torch.manual_seed(seed) before every related call
+        # ("under a fixed random seed"), so where the permutations come from - and how many are drawn - is part of the check
+        case["seeded"] = draw(st.booleans())
     return case
 
 
@@ -82,7 +85,7 @@ def parts(tier):
 def _run(spec, dtype, Jt, case, A=None):
     A = A if A is not None else aggs.make(spec, dtype)
     torch.manual_seed(case["seed"])
-    if spec["name"] == "PCGrad":
+    if spec["name"] == "PCGrad" and not case.get("seeded"):
         with rel.ScriptedRandperm(case["schedule"]):
             return A(Jt), rel.weights_norm(A, Jt)
     x = A(Jt)
